@@ -1,20 +1,21 @@
 // c04: inferred types contain their values; common type and generalisation are bounds.
 //
-//   D  (direct, on the implementation):
-//        infer     IsInstance(v.PType(), v)
-//        detailed  IsInstance(DetailedValueType(v), v)
-//        sound     IsAssignable(T, DetailedValueType(v))  =>  IsInstance(T, v)
-//        complete  IsInstance(T, v)  =>  IsAssignable(T, DetailedValueType(v))     (v without undef-valued hash entry)
-//        common    IsAssignable(c, a) and IsAssignable(c, b)  for  c = CommonType(a, b)
-//        general   IsAssignable(Generalize(t), t)
-//   M  (model tie): v.PType(), DetailedValueType(v), CommonType(a,b), Generalize(t), IsAssignable(Data|RichData, t)
-//        decoded structurally through the hook and compared with infer / infer_detailed / common / generalize /
-//        data_asg / rich_asg of coq/Model/Infer.v by vm_compute.
+//	D  (direct, on the implementation):
+//	     infer     IsInstance(v.PType(), v)
+//	     detailed  IsInstance(DetailedValueType(v), v)
+//	     sound     IsAssignable(T, DetailedValueType(v))  =>  IsInstance(T, v)
+//	     complete  IsInstance(T, v)  =>  IsAssignable(T, DetailedValueType(v))     (v without undef-valued hash entry)
+//	     common    IsAssignable(c, a) and IsAssignable(c, b)  for  c = CommonType(a, b)
+//	     general   IsAssignable(Generalize(t), t)
+//	M  (model tie): v.PType(), DetailedValueType(v), CommonType(a,b), Generalize(t), IsAssignable(Data|RichData, t)
+//	     decoded structurally through the hook and compared with infer / infer_detailed / common / generalize /
+//	     data_asg / rich_asg of coq/Model/Infer.v by vm_compute.
 package main
 
 import (
 	"encoding/json"
 	"fmt"
+	"math"
 	"os"
 	"sort"
 
@@ -246,6 +247,18 @@ func widerPairs() [][2]*lat.Spec {
 	}
 }
 
+// floatEdgeTypes: Float types with infinite bounds and with the largest finite floats as bounds, alone and as members
+func floatEdgeTypes() []*lat.Spec {
+	inf, mx := math.Inf(1), math.MaxFloat64
+	var out []*lat.Spec
+	for _, b := range [][2]float64{{-inf, inf}, {-inf, -inf}, {inf, inf}, {-inf, 1.5}, {0, inf}, {-inf, -mx}, {mx, inf}, {-mx, mx}, {mx, mx}, {-mx, -mx}, {-mx, inf}, {-inf, mx}, {0, mx}} {
+		f := lat.FltB(b[0], b[1])
+		out = append(out, f, lat.Arr(f, 0, lat.Max), lat.W("Optional", f), lat.Var(f, lat.A("String")), lat.Tup(f, lat.Int(0, 5)), lat.W("Type", f),
+			lat.Hsh(lat.A("String"), f, 0, lat.Max), lat.Struct(lat.Member{Name: "a", Kind: 0, T: f}))
+	}
+	return out
+}
+
 func randomValue(r *lib.Rng, es []*lat.VSpec, depth int) *lat.VSpec {
 	if depth <= 0 || r.Chance(1, 3) {
 		return es[r.Intn(len(es))]
@@ -376,6 +389,28 @@ func buildValues(u *lat.Universe, r *lib.Rng, thorough bool) []*val {
 			}
 		}
 	}
+	// the non-finite floats (NaN infers the unbounded Float type, the infinities the point types at the ends of it), the
+	// edges of the finite floats and the negative zero: alone, inside collections, next to every kind of element (both
+	// orders), as hash values and keys, and the Float types with infinite bounds as values
+	add("nonfinite", lat.NonFiniteValues()...)
+	inf := math.Inf(1)
+	nf := []*lat.VSpec{{K: "Float", F: "NaN"}, {K: "Float", F: "+Inf"}, {K: "Float", F: "-Inf"}, lat.VF(math.MaxFloat64), lat.VF(-math.MaxFloat64), lat.VF(math.Copysign(0, -1))}
+	for i, a := range nf {
+		for _, b := range sub {
+			add("nonfinite", lat.VA(a, b), lat.VA(b, a), lat.VH(lat.VS("a"), a, lat.VS("b"), b), lat.VH(lat.VS("a"), b, lat.VS("b"), a))
+		}
+		for j, b := range nf {
+			add("nonfinite", lat.VA(a, b), lat.VA(lat.VA(a), lat.VA(b)), lat.VH(lat.VS("a"), a, lat.VI(1), b))
+			if i != j && i != 0 && j != 0 {
+				add("nonfinite", lat.VH(a, lat.VI(1), b, lat.VI(2))) // distinct non-NaN float keys
+			}
+		}
+	}
+	for _, p := range [][2]*lat.Spec{{lat.FltB(inf, inf), lat.A("FloatDefault")}, {lat.FltB(0, inf), lat.FltB(-inf, inf)}, {lat.FltB(-inf, -inf), lat.FltB(-inf, 1.5)},
+		{lat.FltB(math.MaxFloat64, math.MaxFloat64), lat.FltB(0, inf)}, {lat.FltB(-math.MaxFloat64, math.MaxFloat64), lat.A("FloatDefault")}} {
+		n, w := lat.VT(p[0]), lat.VT(p[1])
+		add("nonfinite", n, w, lat.VA(n, w), lat.VA(w, n), lat.VH(lat.VS("a"), n, lat.VS("b"), w))
+	}
 	// types as values
 	for _, p := range widerPairs() {
 		n, w := lat.VT(p[0]), lat.VT(p[1])
@@ -462,7 +497,8 @@ func run(cfg *lib.Config, res *lib.Result) {
 	if cfg.Thorough() {
 		nRandom, nCoqVal, nCoqCommon, nCoqGen = 800, 12000, 16000, 4000
 	}
-	u := lat.NewUniverse(rng, nRandom, 0)
+	// the pool of the lattice + Float types whose bounds are infinite or the largest finite floats (constructor route)
+	u := lat.NewUniverseWith(rng, nRandom, 0, floatEdgeTypes(), nil)
 	vals := buildValues(u, rng, cfg.Thorough())
 	res.Extra["pool_types"] = len(u.L)
 	res.Extra["values"] = len(vals)
@@ -478,9 +514,9 @@ func run(cfg *lib.Config, res *lib.Result) {
 		seenTy[lat.GTy(e.dec)] = true
 	}
 	type vobs struct {
-		pt, dt       px.Type
-		pdec, ddec   *types.VerifTy
-		crash        bool
+		pt, dt     px.Type
+		pdec, ddec *types.VerifTy
+		crash      bool
 	}
 	obs := make([]vobs, len(vals))
 	// ---- D on values: infer / detailed
@@ -697,7 +733,7 @@ func run(cfg *lib.Config, res *lib.Result) {
 			rest := pick
 			pick = nil
 			for _, i := range rest {
-				if vals[i].kind == "types" || vals[i].kind == "hash3" {
+				if vals[i].kind == "types" || vals[i].kind == "hash3" || nonFiniteVal(vals[i].dec) {
 					pick = append(pick, i)
 				}
 			}
@@ -736,6 +772,14 @@ func run(cfg *lib.Config, res *lib.Result) {
 			cm = append(cm, c)
 		}
 	}
+	// every pair with an infinite Float bound on either side goes to the model (the first cases of the two files)
+	var cinf []cobs
+	for _, c := range append(append([]cobs{}, cm...), co...) {
+		if infFloatTy(tys[c.a].dec) || infFloatTy(tys[c.b].dec) {
+			cinf = append(cinf, c)
+		}
+	}
+	res.Extra["common_in_model_infinite_float"] = len(cinf)
 	res.Extra["common_in_model_merged"] = len(cm)
 	res.Extra["common_in_model_operand"] = len(co)
 	shardsC := 2
@@ -745,7 +789,9 @@ func run(cfg *lib.Config, res *lib.Result) {
 		n := nCoqCommon / shardsC
 		for k := 0; k < n; k++ {
 			var c cobs
-			if k%3 != 2 && len(cm) > 0 {
+			if j := k*shardsC + s; j < len(cinf) && k < n/2 {
+				c = cinf[j]
+			} else if k%3 != 2 && len(cm) > 0 {
 				c = cm[rng.Intn(len(cm))]
 			} else if len(co) > 0 {
 				c = co[rng.Intn(len(co))]
@@ -774,6 +820,8 @@ func run(cfg *lib.Config, res *lib.Result) {
 			}
 		}
 		sort.Ints(idx)
+		// the types with an infinite Float bound first
+		sort.SliceStable(idx, func(x, y int) bool { return infFloatTy(tys[idx[x]].dec) && !infFloatTy(tys[idx[y]].dec) })
 		data, rich := types.DefaultDataType(), types.DefaultRichDataType()
 		for k := 0; k < nCoqGen && len(idx) > 0; k++ {
 			i := idx[k%len(idx)]
@@ -795,39 +843,41 @@ func run(cfg *lib.Config, res *lib.Result) {
 	runHistories(cfg, res, rng.Fork())
 }
 
-
 // ---------------------------------------------------------------------------------------------
 // input classes of the open findings (known_findings/C04.json); each tag names exactly one class
 
-const maxFloatKey = 0x7FEFFFFFFFFFFFFF // order key of math.MaxFloat64
+// (the class nonfinite-float - NaN / infinite Float bounds and values - is closed: the unbounded Float type reaches from
+// -Inf to +Inf and is the type of NaN; those inputs stay in the pools, are ordinary direct checks now and ALL of them that
+// lie in the model fragment go to the model)
 
-// nonFinite: the type has a Float bound that is NaN or infinite
-func nonFinite(t *types.VerifTy) bool {
-	if t.K == "Float" && (t.NaN || t.Lo < -maxFloatKey || t.Hi > maxFloatKey) {
+// infFloatTy: the type has a Float member with an infinite bound (the unbounded Float type included)
+func infFloatTy(t *types.VerifTy) bool {
+	if t.K == "Float" && (t.Lo <= -lat.FloatKeyInf || t.Hi >= lat.FloatKeyInf) {
 		return true
 	}
 	for _, e := range t.Ts {
-		if nonFinite(e) {
+		if infFloatTy(e) {
 			return true
 		}
 	}
 	for _, e := range t.Keys {
-		if nonFinite(e) {
+		if infFloatTy(e) {
 			return true
 		}
 	}
 	return false
 }
 
-func valNonFinite(v *types.VerifVal) bool {
-	if v.K == "Float" && (v.NaN || v.I < -maxFloatKey || v.I > maxFloatKey) {
+// nonFiniteVal: the value holds NaN, +Inf or -Inf (or a type with an infinite Float bound)
+func nonFiniteVal(v *types.VerifVal) bool {
+	if v.K == "Float" && (v.NaN || v.I <= -lat.FloatKeyInf || v.I >= lat.FloatKeyInf) {
 		return true
 	}
-	if v.K == "Type" && nonFinite(v.T) {
+	if v.K == "Type" && v.T != nil && infFloatTy(v.T) {
 		return true
 	}
 	for _, e := range v.Vs {
-		if valNonFinite(e) {
+		if nonFiniteVal(e) {
 			return true
 		}
 	}
@@ -866,8 +916,6 @@ func soundTags(T, D *types.VerifTy) []string {
 
 func completeTags(T, D *types.VerifTy, v *types.VerifVal) []string {
 	switch {
-	case valNonFinite(v):
-		return []string{"nonfinite-float"}
 	case lat.Contains(T, "Iterable"):
 		return []string{"iterable"}
 	case looseTuple(T):
@@ -908,9 +956,6 @@ func commonTags(a, b *types.VerifTy) []string {
 	if (lat.Contains(a, "Struct") || lat.Contains(b, "Struct")) && (lat.Contains(a, "Hash") || lat.Contains(b, "Hash")) {
 		return []string{"byspec-struct-accepts-hash"}
 	}
-	if nonFinite(a) || nonFinite(b) {
-		return []string{"nonfinite-float"}
-	}
 	if strayUnit(a) || strayUnit(b) {
 		return []string{"unit-outside-empty-collection"}
 	}
@@ -918,30 +963,12 @@ func commonTags(a, b *types.VerifTy) []string {
 }
 
 func generalizeTags(t *types.VerifTy) []string {
-	if nonFinite(t) {
-		return []string{"nonfinite-float"}
-	}
 	return []string{"generalize:" + t.K}
 }
 
 // valueTags: narrow tags for known-finding matchers
 func valueTags(v *types.VerifVal, clause string) []string {
-	if containsNaN(v) {
-		return []string{"nonfinite-float"}
-	}
 	return []string{clause + ":" + v.K}
-}
-
-func containsNaN(v *types.VerifVal) bool {
-	if v.K == "Float" && v.NaN {
-		return true
-	}
-	for _, e := range v.Vs {
-		if containsNaN(e) {
-			return true
-		}
-	}
-	return false
 }
 
 // ---------------------------------------------------------------------------------------------
